@@ -17,7 +17,7 @@ ASSUMPTIONS = [
     'seed images are produced by the library itself (no foreign corpus is vendored)',
     'fault model: every truncation point (every byte inside metadata sectors, sector boundaries elsewhere); every byte of every non-zero metadata sector x '
     '{0x00, 0xFF, ^0x01, ^0x80}; every both-byte-order 32/16-bit field and every little-endian word of UDF descriptors x a hostile menu '
-    '(UDF tags re-sealed and left unsealed); pairs of pointer faults',
+    '(UDF tags re-sealed and left unsealed); pairs of pointer faults; shared directory extents without a cycle on a 24-level chain (69 placements)',
     'I/O budget: calls <= 50 x the calls of the uncorrupted seed + 2000, bytes <= 64 x image size + 1 MiB; 10 s alarm; address space limited to 4 GiB',
 ]
 SECTOR = 2048
@@ -102,12 +102,62 @@ def multi_extent_seed():
     return bytes(img)
 
 
+DAG_LEVELS = 24
+
+
+def dag_seed():
+    """Interchange level 4, a chain /X/X/.../X of DAG_LEVELS directories, each level with an empty sibling Y."""
+    iso = env.PyCdlib()
+    iso.new(interchange_level=4)
+    p = ''
+    for k in range(DAG_LEVELS):
+        iso.add_directory(p + '/X')
+        iso.add_directory(p + '/Y')
+        p += '/X'
+    o = io.BytesIO()
+    iso.write_fp(o)
+    iso.close()
+    return o.getvalue()
+
+
+def dag_levels(img):
+    """[(offset of the X record, offset of the Y record)] per level, following the X chain from the root."""
+    out = []
+    ext = struct.unpack_from('<L', img, 16 * SECTOR + 158)[0]
+    for k in range(DAG_LEVELS):
+        off, found = ext * SECTOR, {}
+        while img[off]:
+            ident = bytes(img[off + 33:off + 33 + img[off + 32]])
+            if ident in (b'X', b'Y'):
+                found[ident] = off
+            off += img[off]
+        out.append((found[b'X'], found[b'Y']))
+        ext = struct.unpack_from('<L', img, found[b'X'] + 2)[0]
+    return out
+
+
+def dag_faults(img):
+    """Shared directory extents without a cycle: the sibling Y is made a second name of the extent of X (extent and length, both byte
+    orders) at one level, at every level from j on, and at every level up to j.  A walker that does not remember extents it has
+    queued visits the chain 2^levels times."""
+    lv = dag_levels(img)
+    sets = [('level %d' % j, [j]) for j in range(DAG_LEVELS)]
+    sets += [('levels %d..%d' % (j, DAG_LEVELS - 1), list(range(j, DAG_LEVELS))) for j in range(DAG_LEVELS - 1)]
+    sets += [('levels 0..%d' % j, list(range(0, j + 1))) for j in range(1, DAG_LEVELS - 1)]
+    for what, levels in sets:
+        b = bytearray(img)
+        for j in levels:
+            x, y = lv[j]
+            b[y + 2:y + 18] = b[x + 2:x + 18]
+        yield 'directory DAG: Y shares the extent of X at ' + what, bytes(b)
+
+
 _SEED_CACHE = {}
 
 
 def seed_image(name):
     if name not in _SEED_CACHE:
-        _SEED_CACHE[name] = multi_extent_seed() if name == 'multi-extent' else build_seed(name)
+        _SEED_CACHE[name] = multi_extent_seed() if name == 'multi-extent' else dag_seed() if name == 'dag-chain' else build_seed(name)
     return _SEED_CACHE[name]
 
 
@@ -293,6 +343,7 @@ def tasks(tier):
         for chunk in range(0, len(meta), 3):
             if tier == 'thorough' or chunk % 2 == 0 or True:
                 out.append({'seed': n, 'kind': 'bytes', 'sectors': meta[chunk:chunk + 3], 'values': 4 if tier == 'thorough' else 2})
+    out.append({'seed': 'dag-chain', 'kind': 'dag'})
     return out
 
 
@@ -304,7 +355,7 @@ def run_task(task):
         pass
     name = task['seed']
     img = seed_image(name)
-    meta = metadata_sectors(img, name)
+    meta = metadata_sectors(img, name) if task['kind'] != 'dag' else []
     base = base_calls_of(img)
     res.add('seeds', name)
 
@@ -336,6 +387,9 @@ def run_task(task):
     elif task['kind'] == 'fields':
         for what, data in field_faults(img, meta):
             rec(attempt(data, base, res), {'seed': name, 'kind': 'field', 'what': what, 'size': 1})
+    elif task['kind'] == 'dag':
+        for what, data in dag_faults(img):
+            rec(attempt(data, base, res), {'seed': name, 'kind': 'dag', 'what': what, 'size': 1})
     else:
         pf = pointer_fields(img, meta)
         root = struct.unpack_from('<L', img, 16 * SECTOR + 158)[0]
@@ -366,9 +420,14 @@ def check_case(case):
         b[case['at']] = case['value']
         data = bytes(b)
     else:
-        meta = metadata_sectors(img, case['seed'])
+        meta = metadata_sectors(img, case['seed']) if case['kind'] != 'dag' else []
         data = None
-        if case['kind'] == 'field':
+        if case['kind'] == 'dag':
+            for what, d in dag_faults(img):
+                if what == case['what']:
+                    data = d
+                    break
+        elif case['kind'] == 'field':
             for what, d in field_faults(img, meta):
                 if what == case['what']:
                     data = d
@@ -400,7 +459,7 @@ def coverage(tier, r):
         'evaluations': r.n.get('evaluations', 0),
         'distinct_nontrivial': len(r.sets.get('outcomes', ())) + len(r.viol),
         'rule': 'seed images x {every truncation point, every byte of every non-zero metadata sector x 2 (quick) or 4 (thorough) values, every both-endian field and UDF word x hostile menu '
-                '(sealed and unsealed), pairs of pointer fields}.  distinct = distinct documented outcomes + distinct (exception type or budget, innermost pycdlib function) classes',
+                '(sealed and unsealed), pairs of pointer fields} + a 24-level directory chain whose sibling records are made to share extents (a DAG, no cycle) at one level / a suffix / a prefix of levels.  distinct = distinct documented outcomes + distinct (exception type or budget, innermost pycdlib function) classes',
         'seeds': sorted(r.sets.get('seeds', ())),
         'outcomes': dict((k[8:], v) for k, v in r.n.items() if k.startswith('outcome_')),
         'exhaustive': True,
